@@ -332,12 +332,75 @@ def appendItIt (c : Cfg) (s : FStr) (o : FStr) (first last : Nat) : Res FStr :=
     | .oob w => .oob w
     | .throw e => .throw e
 
-/-- `sprintf`: `vsnprintf( mString, L + 1, ...)` writes `min( n, L)` bytes of the formatted text and a NUL and
-    returns the full length `n` as an `int` -/
-def sprintf (c : Cfg) (s : FStr) (text : Str) : Res FStr :=
-  let n := text.length
-  bindR (Mem.write s.buf 0 (text.take (min n c.L) ++ [0]) "vsnprintf") fun b =>
-  finish c b (min c.L n)
+/-- `sprintf`, the part that is FixedString's own code, for ANY behaviour of the formatter:
+    `const int result = vsnprintf( mString, L + 1, format, ap)` left the bytes `written` at the start of the buffer
+    (`.oob` if it wrote more than the `L + 1` bytes it was given) and returned `result`; then
+    `mLength = (result < 0) ? 0 : std::min( L, static_cast< size_t>( result)); mString[ mLength] = '\0';` -/
+def sprintfV (c : Cfg) (s : FStr) (written : Str) (result : Int) : Res FStr :=
+  bindR (Mem.write s.buf 0 written "vsnprintf") fun b =>
+  finish c b (if result < 0 then 0 else min c.L result.toNat)
+
+/-- What the formatter made of format and arguments: `done text` — every conversion succeeded, `text` is the complete
+    formatted text; `failed pre` — a conversion failed (glibc: `%ls` / `%lc` with a wide character that has no
+    multibyte representation in the current locale, `errno = EILSEQ`) after the text `pre` had been produced by the
+    directives before it. -/
+inductive Fmt
+  | done (text : Str)
+  | failed (pre : Str)
+  deriving Repr
+
+/-- the characters the formatter produced (before it finished or gave up) -/
+def Fmt.text : Fmt → Str
+  | .done t => t
+  | .failed p => p
+
+/-- return value of `vsnprintf`: the full length of the text, or `-1` for a failed conversion -/
+def Fmt.result : Fmt → Int
+  | .done t => t.length
+  | .failed _ => -1
+
+/-- what `vsnprintf( buf, L + 1, …)` leaves in the buffer: `min( n, L)` bytes of the produced text and a NUL.
+    glibc (2.36, observed for every buffer size 1…16 and re-checked by the tie on every run) does the same when a
+    conversion fails: the output of the directives before the failing one, cut at `L`, then the NUL. -/
+def vsnOut (c : Cfg) (text : Str) : Str := text.take (min text.length c.L) ++ [0]
+
+def sprintfF (c : Cfg) (s : FStr) (f : Fmt) : Res FStr := sprintfV c s (vsnOut c f.text) f.result
+
+/-- `sprintf` with a formatter that succeeds: `vsnprintf( mString, L + 1, ...)` writes `min( n, L)` bytes of the
+    formatted text and a NUL and returns the full length `n` as an `int` -/
+def sprintf (c : Cfg) (s : FStr) (text : Str) : Res FStr := sprintfF c s (.done text)
+
+/-- `wcrtomb` in the "C" locale, character by character: code points up to 0x7f are one byte, every other wide
+    character is a conversion error (`none`) -/
+def wconv : List Nat → Option Str
+  | [] => some []
+  | w :: ws =>
+    if w ≤ 127 then (match wconv ws with | some r => some (w :: r) | none => none) else none
+
+/-- the wide-character argument of the `sprintf` variants of the correspondence run -/
+inductive WArg
+  | ls (ws : List Nat)                  -- `%ls`: the wide characters before the terminator
+  | lsp (prec : Nat) (ws : List Nat)    -- `%.*ls`: at most `prec` bytes are converted, the rest is not looked at
+  | lc (wc : Nat)                       -- `%lc`
+  deriving Repr
+
+def WArg.conv : WArg → Option Str
+  | .ls ws => wconv ws
+  | .lsp p ws => wconv (ws.take p)
+  | .lc wc => wconv [wc]
+
+/-- the three formats of the harness: `"%s%ls%lu%s"`, `"<%s>%.*ls=%lu;%s"`, `"%s%lc%lu%s"` applied to
+    `( a, [prec,] wide, v, b)`; `digits` = what `%lu` prints -/
+def fmtW (digits : Str) (a : List Byte) (wa : WArg) (b : List Byte) : Fmt :=
+  let pre : Str := match wa with
+    | .lsp _ _ => [60] ++ StdString.ofCStr a ++ [62]
+    | _ => StdString.ofCStr a
+  let post : Str := match wa with
+    | .lsp _ _ => [61] ++ digits ++ [59] ++ StdString.ofCStr b
+    | _ => digits ++ StdString.ofCStr b
+  match wa.conv with
+  | some m => .done (pre ++ m ++ post)
+  | none => .failed pre
 
 /-! ### compare, starts_with, ends_with, contains -/
 
@@ -648,6 +711,7 @@ inductive Op
   | appendPC (a : List Byte) (n : Nat) | appendP (a : List Byte) | appendItIt (x y : ItArg)
   | addF (f : Sel) | addS (d : Str) | addP (a : List Byte) | addC (ch : Byte)
   | sprintf (a : List Byte) | sprintf2 (a : List Byte) (v : Nat)
+  | sprintfW (a : List Byte) (wa : WArg) (v : Nat) (b : List Byte)    -- formats with `%ls` / `%.*ls` / `%lc`: the formatter can fail
   | cmpF (f : Sel) | cmpS (d : Str) | cmpP (a : List Byte)
   | cmpCCF (p n : Nat) (f : Sel) | cmpCCS (p n : Nat) (d : Str) | cmpCCP (p n : Nat) (a : List Byte)
   | cmpCCFCC (p n : Nat) (f : Sel) (p2 n2 : Nat) | cmpCCSCC (p n : Nat) (d : Str) (p2 n2 : Nat)
@@ -797,6 +861,7 @@ def step (c cu : Cfg) (w : World) : Op → Res (World × Out)
   | .addC ch => mutS w (appendCh c w.s 1 ch)
   | .sprintf a => mutS w (sprintf c w.s (StdString.ofCStr a))
   | .sprintf2 a v => mutS w (sprintf c w.s (StdString.ofCStr a ++ [47] ++ decimal v))
+  | .sprintfW a wa v b => mutS w (sprintfF c w.s (fmtW (decimal v) a wa b))
   | .cmpF f => obs w (fullCompare w.s (w.sel f).buf (w.sel f).len) .int
   | .cmpS d => obs w (fullCompare w.s (d ++ [0]) d.length) .int
   | .cmpP a => obs w (bindR (cstrlen a) fun n => fullCompare w.s a n) .int
@@ -909,6 +974,9 @@ def spec (cl : Nat → Nat) (big : Nat) (w : World) (op : Op) : Res (Str × Out)
   | .ctorMove | .swap => okS (T .t)
   | .ctorDef | .clear => okS []
   | .sprintf2 a v => okS (StdString.ofCStr a ++ [47] ++ decimal v)
+  -- the formatted text; when the formatter fails there is no std::string operation to compare with
+  -- (`inDomain = false`), the reference printed for the tie is the empty string
+  | .sprintfW a wa v b => okS (match fmtW (decimal v) a wa b with | .done t => t | .failed _ => [])
   | .str | .iterFwd | .iterCFwd => obsv (.bytes x)
   | .cStr | .data | .stream => obsv (.bytes (StdString.ofCStr x))
   | .length | .itDist => obsv (.nat x.length)
@@ -1030,6 +1098,8 @@ def inDomain (big : Nat) (w : World) (op : Op) : Bool :=
   | .itWalk .. | .itWalkDeref .. | .itWalkIdx .. | .itRel .. => false
   | .ctorP a | .assignP a | .setP a | .sprintf a | .sprintf2 a _ | .appendP a | .addP a
   | .cmpP a | .swP a | .ewP a => hasNul a
+  -- a failing formatter (conversion error, `vsnprintf` returns -1) has no counterpart: outside the domain
+  | .sprintfW a wa _ b => hasNul a && hasNul b && wa.conv.isSome
   -- documented restriction ("C string", "number of characters from str"): the count does not reach behind the
   -- terminator; beyond it the code stops at the NUL where std::string takes the bytes (`C11_deviation_count_*`)
   | .appendPC a k => hasNul a && k ≤ (StdString.ofCStr a).length
